@@ -65,6 +65,9 @@ for m,enums in bymod.items():
         open spec fn parse_ok(b: Seq<u8>, v: Self) -> bool {{
             match v {{
 {chr(10).join(arms)}
+                // a variant the frozen reply table does not know can never be a correct result
+                #[allow(unreachable_patterns)]
+                _ => false,
             }}
         }}
         /// the command's reply set
